@@ -8,6 +8,7 @@ from typing import Union, Any, Dict, List, Optional
 # Proto-definitions
 import vlsir
 import vlsir.circuit_pb2 as vckt
+from vlsirtools import SpiceType
 
 # HDL
 from ..prefix import Prefix, Prefixed
@@ -87,6 +88,7 @@ class ProtoImporter:
             desc=pmod.desc,
             port_list=port_list,
             paramtype=dict,  # FIXME: should these be stored in the serialization schema?
+            spicetype=SpiceType.from_schema(pmod.spicetype),
         )
         # Give it a (non-initializer) value for its `importpath`
         emod._importpath = [pmod.name.domain]
